@@ -3,6 +3,10 @@ records the constructor observation followed by n observations of next().
 stdin:  {"cases": [{"src": "iso.PStutter(iso.PSeries(0, 1, 3), 2)", "n": 80}]}
       | {"euclid": N}    -> PEuclidean._euclidean(n, k) for all 0 <= k <= n <= N (n >= 1), through the public next() too
       | {"arp": [[notes, type], ...]}
+      | {"sessions": [{"programs": [src...], "sched": [["new" | "next" | "reset", i]...]}]}
+            a SESSION: several programs built, stepped and reset in the interleaved order of `sched` inside ONE interpreter
+            (every session runs in a forked child of this driver, so nothing is carried over from an earlier session);
+            -> {"sessions": [{"obs": [[observations of program 0 in order]...], "status": null|"timeout"|"crash"}]}
 stdout: {"cases": [{"obs": [...], "status": null|"timeout"}]} with observations as in pat_impl.py:
         {"y": value} | "stop" | {"r": exception class name}
 The names available to the source text: iso (the package), FN (the function catalogue shared with the oracle)."""
@@ -105,8 +109,54 @@ def arp(cases):
     return out
 
 
+def run_session(sess):
+    objs, obs = {}, [[] for _ in sess["programs"]]
+    status = None
+    signal.setitimer(signal.ITIMER_REAL, OP_TIMEOUT * 4)
+    try:
+        for op, i in sess["sched"]:
+            signal.setitimer(signal.ITIMER_REAL, OP_TIMEOUT * 2)
+            if op == "new":
+                def build():
+                    objs[i] = eval(sess["programs"][i], {"iso": iso, "FN": FN})
+                obs[i].append(observe(build))
+            elif i in objs:
+                p = objs[i]
+                obs[i].append(observe((lambda: next(p)) if op == "next" else (lambda: p.reset())))
+    except Timeout:
+        status = "timeout"
+    finally:
+        signal.setitimer(signal.ITIMER_REAL, 0)
+    return {"obs": obs, "status": status}
+
+
+def forked_session(sess):
+    r, w = os.pipe()
+    pid = os.fork()
+    if pid == 0:
+        try:
+            os.close(r)
+            out = json.dumps(run_session(sess)).encode()
+            with os.fdopen(w, "wb") as f:
+                f.write(out)
+        finally:
+            os._exit(0)
+    os.close(w)
+    with os.fdopen(r, "rb") as f:
+        data = f.read()
+    os.waitpid(pid, 0)
+    try:
+        return json.loads(data.decode())
+    except ValueError:
+        return {"obs": [[] for _ in sess["programs"]], "status": "crash"}
+
+
 def main():
     req = json.load(sys.stdin)
+    if "sessions" in req:
+        signal.signal(signal.SIGALRM, on_alarm)
+        json.dump({"sessions": [forked_session(s) for s in req["sessions"]]}, sys.stdout)
+        return
     if "euclid" in req:
         json.dump({"euclid": euclid(req["euclid"])}, sys.stdout)
         return
